@@ -538,6 +538,21 @@ class Evaluator:
         self.localdefs: Dict[str, ast.FunctionDef] = {}
         self._via_callable = False
         self.inline_class_consts = False   # opt-in: read ``self.X`` as the class-level constant X of a plain class
+        global _ENUM_VALUE_HOOK
+        _ENUM_VALUE_HOOK = self._enum_value   # lets subst() fold <member>.value once a symbol was replaced by a member
+
+    def _enum_value(self, member: Term) -> Optional[Term]:
+        c = self.model.maybe_cls(member[1])
+        if c is None:
+            return None
+        if member[0] == "len":
+            ms = self.enum_members(c.name) if self.is_enum(c) else None
+            return lin({}, Fraction(len(ms))) if ms else None
+        try:
+            v = self.attr(member, "value", Frame(None, c.module, {}, c, 0))
+        except Unsupported:
+            return None
+        return v if v != ("attr", member, "value") else None
 
     # -- typing -----------------------------------------------------------------------
     def set_type(self, t: Term, c: Optional[ClassInfo]):
@@ -2323,6 +2338,9 @@ def _plain_display(t):
     return t
 
 
+_ENUM_VALUE_HOOK = None
+
+
 def subst(t, mapping: Dict[Term, Term]):
     """Replace sub-terms and re-normalise through the smart constructors."""
     if not isinstance(t, tuple) or not t:
@@ -2416,6 +2434,11 @@ def subst(t, mapping: Dict[Term, Term]):
 
     if k == "call" and r[1] == "len" and len(r[2]) == 1 and not r[3]:
         d0 = _plain_display(r[2][0])
+        if d0[0] == "cls" and _ENUM_VALUE_HOOK is not None:
+            # len(<Enum class>) is its number of members
+            n_ = _ENUM_VALUE_HOOK(("len", d0[1]))
+            if n_ is not None:
+                return n_
         if d0[0] in ("list", "tuple") and not any(isinstance(x, tuple) and x and x[0] == "star" for x in d0[1]):
             return lin({}, Fraction(len(d0[1])))
 
@@ -2424,6 +2447,10 @@ def subst(t, mapping: Dict[Term, Term]):
     # <enum member>.name is the member's name
     if k == "attr" and r[2] == "name" and isinstance(r[1], tuple) and r[1] and r[1][0] == "enum":
         return ("const", r[1][2])
+    if k == "attr" and r[2] == "value" and isinstance(r[1], tuple) and r[1] and r[1][0] == "enum" and _ENUM_VALUE_HOOK is not None:
+        v_ = _ENUM_VALUE_HOOK(r[1])
+        if v_ is not None:
+            return v_
     # {k1: v1, ...}.get(key, default) on a display whose keys and the key are all closed (constants / enum members): Python's lookup by equality --
     # a member looked up in a table keyed by names (or the reverse) finds nothing and answers the default
     if k == "call" and isinstance(r[1], tuple) and len(r[1]) == 3 and r[1][0] == "attr" and r[1][2] == "get" and not r[3] and 1 <= len(r[2]) <= 2:
